@@ -75,6 +75,13 @@ def gen_chart(r: random.Random, game: str, hi: int = 8, keys: int | None = None,
             if r.random() < 0.25:
                 lists[k] = gen_rows(r, slots[k], r.choice([1, 2]), keys, seen, sort=srt)
     meta = gen_map_meta(r, game, keys)
+    if r.random() < 0.2:
+        # charts built from integer literals: int64 time columns (Hit(offset=1000, ...))
+        for rows in lists.values():
+            for row in rows:
+                for c in ("offset", "length"):
+                    if c in row and isinstance(row[c], float) and row[c].is_integer() and abs(row[c]) < 1e9:
+                        row[c] = int(row[c])
     return lists, meta, keys
 
 
@@ -520,8 +527,11 @@ class Gen:
     STACK_NUM = ["offset", "column", "length", "bpm", "metronome", "volume", "multiplier"]
 
     def _stack_arith(self, col):
-        if col in ("column", "volume", "metronome"):
+        if col in ("column", "metronome"):
             return self.r.choice(["+", "-", "*"]), self.r.choice([1, 2])
+        if col == "volume":
+            # fractional results on an integer-typed column are ordinary arithmetic too (volume *= 0.5)
+            return self.r.choice([("+", 1), ("-", 2), ("*", 2), ("*", 0.5), ("/", 4), ("*", 0.3), ("+", 0.25)])
         return self._arith(col)
 
     def p_stack_assign(self):
@@ -636,6 +646,47 @@ class Gen:
         h = self.pick("map", pred=self._rate_ok)
         return h and self.mk("map.describe", h=h.name)
 
+    def p_copy_then_mutate(self):
+        """a result documented as a copy is edited in place right away (C14: no shared mutable state), including
+        the corner cases where nothing had to be copied: empty operands, all-true masks, already sorted lists"""
+        h = self.pick("list", pred=lambda x: x.meta.get("cls") in fields.LISTS and "offset" in x.obj.df.columns
+                      and not x.obj.df.isna().any().any() and set(x.obj.df.columns) == set(fields.declared(x.meta["cls"])))
+        if not h:
+            return None
+        cls, n = h.meta["cls"], len(h.obj.df)
+        out = self.new_h()
+        how = self.r.choice(["append_empty", "append_empty", "append", "sorted", "mask_all", "filter_all", "deepcopy", "slice_copy"])
+        ops = []
+        if how in ("append_empty", "append"):
+            x = self.new_h()
+            rows = [] if how == "append_empty" else gen_rows(self.d, cls, 1, h.meta.get("keys", 4))
+            ops.append(self.mk("list.new", cls=cls, how="items", rows=rows, out=x, keys=h.meta.get("keys", 4)))
+            ops.append(self.mk("list.append", h=h.name, x=x, form=self.r.choice(["obj", "pandas"]), sort=False, out=out))
+        elif how == "sorted":
+            ops.append(self.mk("list.sorted", h=h.name, reverse=False, out=out))
+        elif how == "mask_all":
+            if not n:
+                return None
+            ops.append(self.mk("list.get_mask", h=h.name, mask=[True] * n, form=self.r.choice(["list", "array", "series"]), out=out))
+        elif how == "filter_all":
+            if not n:
+                return None
+            lo = float(min(h.obj.df["offset"].tolist())) - 1.0
+            ops.append(self.mk("list.filter", h=h.name, f="after", lo=lo, inc_lo=True, out=out))
+        elif how == "deepcopy":
+            ops.append(self.mk("list.deepcopy", h=h.name, out=out))
+        else:
+            if not n:
+                return None
+            ops.append(self.mk("list.get_mask", h=h.name, mask=[True] * n, form="list", out=out))
+        col = self.r.choice([c for c in ("offset", "length", "bpm", "multiplier") if c in h.obj.df.columns])
+        if str(h.obj.df[col].dtype) != "float64":
+            opr, v = self.r.choice([("+", 1), ("*", 2), ("-", 3)])
+        else:
+            opr, v = self._arith(col)
+        ops.append(self.mk("list.col_arith", h=out, col=col, opr=opr, v=v))
+        return ops
+
     # ---- mutate a *result* afterwards (C14 second clause)
     def p_mutate_result(self):
         """in-place edit on (a list of) a handle that is documented as a copy"""
@@ -681,7 +732,7 @@ class GenC14(Gen):
                  move=4, list_deepcopy=3, bpm_query=4, col_arith=3, setitem=1,
                  map_new=8, mapset_new=3, mapset_get_map=1, map_get_list=4, map_assign_list=2, map_edit_list=3,
                  map_deepcopy=4, rate=5, stack=2, stack_read=2, stack_assign=2, stack_loc=1, convert=7,
-                 full_ln=4, hitsound_copy=3, analysis=7, pattern=3, describe=2, mutate_result=8)
+                 full_ln=4, hitsound_copy=3, analysis=7, pattern=3, describe=2, mutate_result=8, copy_then_mutate=8)
 
 
 class GenC12(Gen):
@@ -824,7 +875,9 @@ class FileGen(Gen):
         from .ops.files import IO
 
         self.n_paths += 1
-        p = f"/simfs/f{self.n_paths}{IO[game].ext}"
+        # the session seed is part of the path: process-global state inside the library (a cache keyed by path)
+        # cannot carry over from an earlier session of the same worker process
+        p = f"/simfs/{self.s.seed:x}/f{self.n_paths}{IO[game].ext}"
         self.paths[p] = game
         return p
 
@@ -884,6 +937,46 @@ class FileGen(Gen):
         path = self.new_path(game)
         doc, fmt = self.gen_doc(game)
         return [self.mk("fs.install", game=game, path=path, doc=doc, fmt=fmt), self.io_read_op(game, path)]
+
+    def p_reinstall_read(self):
+        """the file at a path the session has already read is replaced by another one, then read again"""
+        ps = [p for p, g in self.paths.items() if g in self.read_games and self.w.fs is not None and p in self.w.fs.files]
+        if not ps:
+            return None
+        path = self.r.choice(ps)
+        game = self.paths[path]
+        doc, fmt = self.gen_doc(game)
+        rd = self.io_read_op(game, path)
+        if hasattr(self, "path_layout") and getattr(self, "_layout", None):
+            self.path_layout[path] = self._layout
+            rd["layout"] = self._layout
+        rd.pop("prop", None)
+        return [self.mk("fs.install", game=game, path=path, doc=doc, fmt=fmt), rd]
+
+    def p_mutate_read(self):
+        """the caller edits a chart it got from read_file (a later read of the same file must not see the edit)"""
+        hs = [h for h in self.w.h.values() if h.meta.get("read_from") and h.kind in ("map", "mapset")]
+        if not hs:
+            return None
+        h = self.r.choice(hs)
+        ops = []
+        name = h.name
+        obj = h.obj
+        if h.kind == "mapset":
+            if not obj.maps:
+                return None
+            i = self.r.randrange(len(obj.maps))
+            name = self.new_h()
+            ops.append(self.mk("mapset.get_map", h=h.name, i=i, out=name))
+            obj = obj.maps[i]
+        keys = [k for k, v in obj.objs.items() if len(v.df) > 0 and "offset" in v.df.columns and not v.df.isna().any().any()]
+        if not keys:
+            return None
+        key = self.r.choice(keys)
+        a = self.new_h()
+        ops.append(self.mk("map.get_list", h=name, key=key, out=a))
+        ops.append(self.mk("list.col_arith", h=a, col="offset", opr=self.r.choice(["+", "*"]), v=self.r.choice([1000.0, 2, 0.5])))
+        return ops
 
     def _written_paths(self, game=None):
         fs = self.w.fs
@@ -972,7 +1065,7 @@ class FileGen(Gen):
 class GenC01(FileGen):
     game = "osu"
     table = dict(install_read=10, map_new=7, write=10, reread=6, chain=6, rate=2, stack=2, stack_time=2, time_arith=2,
-                 map_edit_list=2, map_deepcopy=1)
+                 map_edit_list=2, map_deepcopy=1, reinstall_read=2, mutate_read=2)
     games = ["osu"]
 
     def gen_doc(self, game):
@@ -989,7 +1082,7 @@ class GenC06(FileGen):
     write_games = ("qua",)
     read_games = ("qua",)
     table = dict(install_read=10, map_new=8, write=10, reread=6, chain=6, rate=1, stack=1, stack_time=1, time_arith=2,
-                 map_edit_list=2, map_deepcopy=1, convert=8, mapset_new=2)
+                 map_edit_list=2, map_deepcopy=1, convert=8, mapset_new=2, reinstall_read=2, mutate_read=2)
     games = ["qua", "qua", "osu", "bms", "sm", "o2j"]
 
     def gen_doc(self, game):
@@ -1023,7 +1116,7 @@ class GenC02(FileGen):
     game = "sm"
     write_games = ()
     read_games = ("sm",)
-    table = dict(install_read=20, reread=4, mapset_get_map=1, map_deepcopy=1)
+    table = dict(install_read=20, reread=5, reinstall_read=4, mutate_read=3, mapset_get_map=1, map_deepcopy=1)
 
     def gen_doc(self, game):
         from .gen_files import gen_sm_doc, gen_sm_fmt
@@ -1061,6 +1154,8 @@ class GridMixin:
             base = gen_row(self.d, slots["bpms"], keys)
             base.update(offset=float(ms), bpm=float(v), metronome=4.0 if "metronome" in base else 4)
             bp.append(base)
+        if len(bp) > 1 and self.d.random() < 0.3:
+            self.d.shuffle(bp)  # a tempo point appended later: rows are not in time order
         lists["bpms"] = bp
         if "svs" in slots:
             lists["svs"] = []
@@ -1144,7 +1239,7 @@ class GenC04(FileGen):
     game = "bms"
     write_games = ()
     read_games = ("bms",)
-    table = dict(install_read=20, reread=4, map_deepcopy=1)
+    table = dict(install_read=20, reread=5, reinstall_read=4, mutate_read=3, map_deepcopy=1)
 
     def gen_doc(self, game):
         from .gen_files import gen_bms_doc, gen_bms_fmt
@@ -1281,7 +1376,7 @@ class GenC07(FileGen):
     game = "o2j"
     write_games = ()
     read_games = ("o2j",)
-    table = dict(install_read=20, reread=5, mapset_get_map=1, map_deepcopy=1)
+    table = dict(install_read=20, reread=6, reinstall_read=4, mutate_read=4, mapset_get_map=1, map_deepcopy=1)
 
     def gen_doc(self, game):
         from .gen_files import gen_ojn_doc
